@@ -4,6 +4,11 @@ R_AXIOMS = ("theorems over R use the standard-library real-number axioms Classic
             "sig_not_dec and FunctionalExtensionality.functional_extensionality_dep (named by Print Assumptions in the evidence)")
 
 CHECKS = {
+ "C01": {
+  "technique": "Coq proof over R (induction on the backward pass) + bit-exact binary64 correspondence",
+  "text": "The labelling kernel is modelled once, generically in the carrier (Model/Viterbi.v). At R: C01_optimal (reported cost <= cost of every one of the K^T label sequences, any T, K <= 65536, any beta >= 0 per pair), C01_cost_is_path_cost, C01_cost_definition, C01_scalar; C01_shape holds for every carrier incl. binary64 with NaN. The same model text at binary64 (primitive floats, vm_compute) is compared bit for bit with the kernel in three execution modes (JIT, JIT disabled, Numba absent) on generated tables; an exact-rational DP / brute force monitor checks the implementation's answers independently.",
+  "note": R_AXIOMS + ". Not proved: rounding error of the binary64 kernel relative to the real-number optimum (the monitor uses an explicit slack of 16*T*2^-52*sum|entries|, zero on integer tables). Primitive float operations are kernel primitives (listed by Print Assumptions).",
+ },
  "C10": {
   "technique": "Coq proof (parametric list model) + tag-based correspondence",
   "text": "Theorems C10_shape, C10_cell, C10_multi_is_concat, C10_rows_within_series, C10_split_pad_roundtrip hold for every element type, every T, W, N and every tuple of series (unbounded, by induction); the model is polymorphic so 'bit for bit' follows by parametricity. The model is tied to data_preparation.py on every run by running both on position-tagged inputs (all (W,#series) combinations, 600 / all 2952 shapes) and comparing the source tag of every output cell; a definition-level monitor re-checks the implementation output directly.",
